@@ -208,13 +208,23 @@ def _content_length(vals, msg):
         if e.rstrip(_OWS) != e:
             # "5 ,5": legal list syntax; Tornado's split leaves "5 " != "5"
             msg.strict.add("cl_ows_before_comma")
-        nums.add(int(s))
+        # Compare numbers by their canonical spelling: CPython refuses int() on more than
+        # 4300 decimal digits (sys.int_max_str_digits) and the reader must not depend on it.
+        nums.add(s.lstrip(b"0") or b"0")
+        if len(s) > 4300:
+            # a valid 1*DIGIT (possibly a small number behind thousands of zeros), but an
+            # implementation may refuse a field it cannot convert: refusing is acceptable
+            msg.strict.add("cl_over_4300_digits")
+            msg.features.add("cl_very_long_digits")
         if len(elems) > 1 and s != elems[0].strip(_OWS):
             # same number, different spelling ("05,5"): RFC says "same decimal value"
             msg.strict.add("cl_list_spelling")
     if len(nums) != 1:
         raise _Stop("reject", "conflicting_content_length", "semantic")
-    return nums.pop()
+    canon = nums.pop()
+    if len(canon) > 40:
+        return 10 ** 40  # exact value irrelevant: above every limit, never satisfiable
+    return int(canon)
 
 
 def _transfer_encoding(vals, msg):
